@@ -78,6 +78,10 @@ func main() {
 	if s := os.Getenv("VERIF_SEED"); s != "" {
 		seed, _ = strconv.ParseInt(s, 10, 64)
 	}
+	if *prop == "all" {
+		// development aid (seed matrix): every property's quick rules over one loaded program
+		os.Exit(runAllQuick(*repo, *verif))
+	}
 	spec := registry[*prop]
 	if spec == nil {
 		fmt.Printf("unknown property %q\n", *prop)
@@ -150,6 +154,44 @@ func runProperty(spec *PropSpec, tier, repo, verif string, seed int64, only *rep
 		}
 	}
 	return run.finish(verif, seed, start, only)
+}
+
+func runAllQuick(repo, verif string) int {
+	known, err := loadKnown(filepath.Join(verif, "known_findings.json"))
+	if err != nil {
+		fmt.Println("cannot read known_findings.json:", err)
+		return 2
+	}
+	w, err := loadWorld(repo, "", "")
+	if err != nil {
+		fmt.Println("load failed:", err)
+		return 2
+	}
+	ids := []string{}
+	for id := range registry {
+		ids = append(ids, id)
+	}
+	sort.Strings(ids)
+	rc := 0
+	for _, id := range ids {
+		spec := registry[id]
+		start := time.Now()
+		r := newRun(w, spec.ID, "quick", known)
+		for _, ru := range spec.Rules {
+			if ru.Thorough {
+				continue
+			}
+			ru := ru
+			r.curRule = ru.Name
+			r.runRule(ru.Name, func() { ru.Run(r) })
+		}
+		r.NotDec = spec.NotDec
+		r.Trusted = spec.Trusted
+		if r.finish(verif, 0, start, nil) != 0 {
+			rc = 1
+		}
+	}
+	return rc
 }
 
 func writeLoadFailEvidence(verif, prop, tier string, seed int64, start time.Time, err error) {
